@@ -15,8 +15,15 @@ impl BeanFactory<'_> {
             #[cfg(feature = "verif-hooks")]
             crate::verif::point("bean_factory:creating", 0, 0);
             let ptr: &'i mut BeanFactory = Box::leak(Box::default());
-            ret = std::ptr::from_mut(ptr) as usize;
-            INSTANCE.store(ret, Ordering::Relaxed);
+            let new = std::ptr::from_mut(ptr) as usize;
+            // several threads may get here together: exactly one factory wins
+            match INSTANCE.compare_exchange(0, new, Ordering::AcqRel, Ordering::Acquire) {
+                Ok(_) => ret = new,
+                Err(existing) => {
+                    drop(unsafe { Box::from_raw(new as *mut BeanFactory) });
+                    ret = existing;
+                }
+            }
         }
         unsafe { &*(ret as *mut BeanFactory) }
     }
@@ -71,17 +78,18 @@ impl BeanFactory<'_> {
     #[must_use]
     pub fn get_or_default<B: Default>(bean_name: &str) -> &B {
         let factory = Self::get_instance();
-        factory.0.get(bean_name).map_or_else(
-            || {
+        if let Some(ptr) = factory.0.get(bean_name) {
+            return unsafe { &*(*ptr as *mut c_void).cast::<B>() };
+        }
+        // create under the map's entry lock, so that concurrent first users agree on one bean
+        let ptr = *factory
+            .0
+            .entry(Box::leak(Box::from(bean_name)))
+            .or_insert_with(|| {
                 let bean: &B = Box::leak(Box::default());
-                _ = factory.0.insert(
-                    Box::leak(Box::from(bean_name)),
-                    std::ptr::from_ref(bean) as usize,
-                );
-                bean
-            },
-            |ptr| unsafe { &*(*ptr as *mut c_void).cast::<B>() },
-        )
+                std::ptr::from_ref(bean) as usize
+            });
+        unsafe { &*(ptr as *mut c_void).cast::<B>() }
     }
 
     /// Get the bean by name, create bean if not exists.
@@ -92,16 +100,17 @@ impl BeanFactory<'_> {
     #[allow(clippy::mut_from_ref)]
     pub unsafe fn get_mut_or_default<B: Default>(bean_name: &str) -> &mut B {
         let factory = Self::get_instance();
-        factory.0.get_mut(bean_name).map_or_else(
-            || {
+        if let Some(ptr) = factory.0.get(bean_name) {
+            return &mut *(*ptr as *mut c_void).cast::<B>();
+        }
+        // create under the map's entry lock, so that concurrent first users agree on one bean
+        let ptr = *factory
+            .0
+            .entry(Box::leak(Box::from(bean_name)))
+            .or_insert_with(|| {
                 let bean: &mut B = Box::leak(Box::default());
-                _ = factory.0.insert(
-                    Box::leak(Box::from(bean_name)),
-                    std::ptr::from_ref(bean) as usize,
-                );
-                bean
-            },
-            |ptr| &mut *(*ptr as *mut c_void).cast::<B>(),
-        )
+                std::ptr::from_ref(bean) as usize
+            });
+        &mut *(ptr as *mut c_void).cast::<B>()
     }
 }
